@@ -1,1 +1,56 @@
-From Emd Require Import Base.Prelude Model.H5 Model.Emd Model.Reader.
+(* C09 -- append is a name-based union; append-over additionally replaces common nodes.  Statements only.
+   PARTIAL: proved are (1) append mode only extends the file tree -- every node already in the file is unchanged,
+   at any depth, for every runtime tree; (2) a runtime child the file lacks is written as a whole new branch at its
+   runtime path; (3) the replace step of append-over: the node's own content (tags, metadata, datasets) becomes the
+   runtime node's, the data children that exist only in the file are kept below it, siblings untouched, no scratch
+   group.  The composition of these steps over the whole dispatcher of write.py (which branch applies to which
+   target / emdpath) and root metadata are tied by correspondence + the reference-model oracle. *)
+From Emd Require Import Base.Prelude Model.H5 Model.Emd Proofs.PTree Proofs.PFault Proofs.PAppend.
+
+Theorem C09_append_leaves_existing_nodes_unchanged :
+  forall n g g', append_branch false n g = Ok g' -> ext g g'.
+Proof. exact append_only_extends. Qed.
+Print Assumptions C09_append_leaves_existing_nodes_unchanged.
+
+Theorem C09_ext_means_still_there_with_same_content :
+  forall g g', ext g g' -> forall p o, lookup g p = Some o ->
+    exists o', lookup g' p = Some o' /\ oattrs o' = oattrs o /\
+      forall k d, get (olinks o) k = Some d -> is_group d = false -> get (olinks o') k = Some d.
+Proof.
+  intros g g' H p o Hl. destruct (ext_lookup _ _ H p o Hl) as (o' & Hl' & He). exists o'. split; [exact Hl'|]. apply ext_same_own. exact He.
+Qed.
+Print Assumptions C09_ext_means_still_there_with_same_content.
+
+Theorem C09_missing_node_written_with_whole_branch :
+  forall k a l, ok_tree k -> ~ In (rname k) (keys l) ->
+    (do g1 <- write_single_node k (G a l); in_child (rname k) (write_tree k) g1) = Ok (G a (l ++ [(rname k, enc k)])).
+Proof. exact new_child_written_whole. Qed.
+Print Assumptions C09_missing_node_written_with_whole_branch.
+
+Theorem C09_appendover_replaces_content_keeps_file_only_children :
+  forall n a l old p', NoDup (keys l) ->
+    get l (rname n) = Some old -> get l (tmpname (rname n)) = None ->
+    NoDup (keys (filter (fun kv => is_data_group (snd kv)) (ksort (olinks old)))) ->
+    (forall k, In k (keys (filter (fun kv => is_data_group (snd kv)) (ksort (olinks old)))) -> ~ In k (keys (shallow_links n))) ->
+    overwrite_in_parent n (G a l) = Ok p' ->
+    get (olinks p') (rname n) = Some (G (node_tags n) (shallow_links n ++ filter (fun kv => is_data_group (snd kv)) (ksort (olinks old))))
+    /\ get (olinks p') (tmpname (rname n)) = None
+    /\ oattrs p' = a
+    /\ forall k, k <> rname n -> k <> tmpname (rname n) -> get (olinks p') k = get l k.
+Proof. exact overwrite_spec. Qed.
+Print Assumptions C09_appendover_replaces_content_keeps_file_only_children.
+
+(* non-vacuity: file r/a/{x}, runtime a' (new token) with new child b: append-over keeps x, replaces a, adds b *)
+Example C09_hypotheses_satisfiable :
+  let old := G (tags "array" "Array") [("data", D [("units", AStr "")] [3] 1%Z); ("x", G (tags "node" "Node") [])] in
+  let l := [("a", old)] in
+  let n := RN CArray "a" 2%Z 1 [] [RN CNode "b" 0%Z 0 [] []] in
+  NoDup (keys l) /\ get l "a" = Some old /\ get l (tmpname "a") = None /\
+  exists g', append_branch true (RN CRoot "r" 0%Z 0 [] [n]) (G [] l) = Ok g' /\
+             lookup g' ["a"; "x"] = Some (G (tags "node" "Node") []) /\
+             lookup g' ["a"; "b"] = Some (enc (RN CNode "b" 0%Z 0 [] [])) /\
+             lookup g' ["a"; "data"] = Some (D [("units", AStr "")] [3] 2%Z).
+Proof.
+  cbv zeta. split; [repeat constructor; cbn; intuition discriminate|]. split; [reflexivity|]. split; [reflexivity|].
+  eexists. split; [vm_compute; reflexivity|]. repeat split; vm_compute; reflexivity.
+Qed.
